@@ -82,6 +82,15 @@ impl LeaderClient {
     #[verifier::external_body]
     pub fn retrieve_epoch_settings_or_fail(&self) -> (r: Result<LeaderEpochSettings, SignerRegistrationError>) ensures r is Ok ==> leader_settings(self) == Some(r->Ok_0) { unimplemented!() }
 }
+impl LeaderClient {
+    /// retrieve_epoch_settings().await .with_context(..).map_err(..)?   (fetch failed -> error; None = the leader has no settings yet)
+    #[verifier::external_body]
+    pub fn retrieve_epoch_settings_opt(&self) -> (r: Result<Option<LeaderEpochSettings>, SignerRegistrationError>) ensures r is Ok ==> r->Ok_0 == leader_settings(self) { unimplemented!() }
+}
+/// `.is_some_and(|leader_epoch_settings| epoch == leader_epoch_settings.epoch)`
+fn settings_epoch_is(o: Option<LeaderEpochSettings>, epoch: Epoch) -> (r: bool) ensures r == (o is Some && o->Some_0.epoch.0 == epoch.0) {
+    match o { Some(s) => s.epoch.0 == epoch.0, None => false }
+}
 impl StakeStore {
     /// get_stakes(e).await .with_context(..).map_err(Store)? .with_context(..).map_err(Store)?
     #[verifier::external_body]
@@ -117,6 +126,12 @@ impl MithrilSignerRegistrationFollower {
     //@ spec     &&& forall|i: int| 0 <= i < l->Some_0.next_signers@.len() ==>
     //@ spec             synchronized(self, sync_epoch(l->Some_0.epoch), &#[trigger] l->Some_0.next_signers@[i], &stakes_stored(&self.stake_store, sync_epoch(l->Some_0.epoch))->Some_0)
     //@ spec }),
+    //@end
+
+    //@extract file=mithril-aggregator/src/services/signer_registration/follower.rs fn=can_synchronize_signers within="impl SignerSynchronizer for MithrilSignerRegistrationFollower"
+    //@ rewrite /async fn/ => /fn/
+    //@ rewrite /(?s)Ok\(self\s*\.leader_aggregator_client\s*\.retrieve_epoch_settings\(\)\s*\.await\s*\.with_context\(\|\| "[^"]*"\)\s*\.map_err\(SignerRegistrationError::\w+\)\?\s*\.is_some_and\(\|leader_epoch_settings\| epoch == leader_epoch_settings\.epoch\)\)/ => /Ok(settings_epoch_is(self.leader_aggregator_client.retrieve_epoch_settings_opt()?, epoch))/
+    //@ spec ensures ret is Ok ==> ret->Ok_0 == (leader_settings(&self.leader_aggregator_client) is Some && leader_settings(&self.leader_aggregator_client)->Some_0.epoch.0 == epoch.0)
     //@end
 
     //@extract file=mithril-aggregator/src/services/signer_registration/follower.rs fn=register_signer within="impl SignerRegisterer for MithrilSignerRegistrationFollower"
